@@ -472,7 +472,7 @@ def select(rng, genf, required, per_tag, max_programs, tries=4000):
 # ------------------------------------------------------------------ C08 programs (macros)
 
 C08_TAGS = ["or-then-again", "twice", "clash-before", "clash-after", "site-or", "body-or", "nested-body", "nested-head", "head-macro", "expr-param", "ident-in", "ident-out",
-            "local-pat", "local-cond", "body-attached-cond", "body-attached-let", "local-neg", "twice-nested", "nested-passes-local", "expr-arg-mentions-clash", "macro-in-fact-head", "chain-twice", "chain-clash"]
+            "local-pat", "local-cond", "body-attached-cond", "body-attached-let", "local-neg", "twice-nested", "nested-passes-local", "expr-arg-mentions-clash", "macro-in-fact-head", "chain-twice", "chain-clash", "suffix-twice"]
 
 
 def gen_macro_body(rng, p, edb, idb, params, nested=None, want=()):
@@ -599,6 +599,19 @@ def gen_c08_program(rng):
         modes.append(["out", "out"])
         chain = (len(macros) - 1, mid)
         tags.add("nested-body"); tags.add("nested-passes-local")
+    # a macro whose two locals are spelled `vL` and `vL1` (one is the other followed by a digit), invoked twice in one rule: the names generated for the
+    # second expansion of `vL` and for the first expansion of `vL1` must differ (the generated-name scheme must be injective in (name, counter))
+    sfx = None
+    if two_int and rng.chance(2, 3):
+        r = rng.choice([x for x in two_int if x in edb] or two_int)       # preferably an input relation: walks of six hops exist on the generated inputs
+        tys = S.rel_types(p, r)
+        ints = [j for j, t in enumerate(tys) if t == "int"][:2]
+        L = 7 + rng.below(3)
+        def hop(a, b):
+            vals = {ints[0]: a, ints[1]: b}
+            return ("cl", r, [("v", vals[j]) if j in vals else ("_",) for j in range(len(tys))], [])
+        macros.append({"params": ["ident", "ident"], "body": [hop(("p", 0), L), hop(L, 10 * L + 1), hop(10 * L + 1, ("p", 1))]}); modes.append(["out", "out"])
+        sfx = len(macros) - 1
     # head macros: parameters are expressions / identifiers that are read only
     nh = rng.range(1, 2)
     hmacs = []
@@ -726,6 +739,12 @@ def gen_c08_program(rng):
             # a call-site variable spelled exactly like the macro-local `mid`
             p["rules"].append({"heads": [head(rng.choice(hs), mid, 63)], "body": [("mac", ci, [("id", mid), ("id", 63)])]})
             tags.add("chain-clash")
+    if sfx is not None:
+        # its own head relation (nothing else derives it): a lost tuple is not masked by the other rules of the program
+        p["rels"].append({"arity": 2})
+        h = len(p["rels"]) - 1
+        p["rules"].append({"heads": [(h, [("var", 64), ("var", 66)])], "body": [("mac", sfx, [("id", 64), ("id", 65)]), ("mac", sfx, [("id", 65), ("id", 66)])]})
+        tags.add("suffix-twice")
     # a rule for the low relation and a head macro used in a fact
     g = RuleGen(rng.fork("low"), p, edb, idb); g.neg_rels = list(edb); g.body_rels = list(edb)
     sc = Scope(); it = g.gen_clause(sc, "")
